@@ -7,6 +7,7 @@ oracle_c18 — line protocol:
       → `events=<e,…> result=<r>`
   `combine <step>*` → `ran=<n> out=<step>`
   `combinen <step>* (/ <step>*)*` → `ran=<n> out=<step>` for Combine(Combine(g1…), Combine(g2…), …)
+  `txn <pre:0-3> <b:0|1> <c:0|1> <r:0|1> <step>*` → the output of `tx <b> <c> <r> <step>*` (Transact on the shared handle of gormx.New; pre = history on the handle)
   `soak <n>` (n ≤ 200000) → the output of `tx 1 1 1 ok p1 ok` after n failing transactions in the same process
   `par <n> tx …` (1 ≤ n ≤ 64) → the output of the `tx` line (n concurrent calls, each on its own connection)
 The configuration is the one regenerated from the source (`Nv.Gen.C18.cfg`).
@@ -30,7 +31,8 @@ def parseBool (s : String) : Option Bool :=
 /-- commit / rollback flag: 1 = succeeds; 0, 2, 3, 4 = fails (with the fake's own error or a well-known sentinel —
     the model does not distinguish the kinds: the outcome may not depend on which error the driver returns) -/
 def parseFinish (s : String) : Option Bool :=
-  if s == "1" then some true else if s == "0" || s == "2" || s == "3" || s == "4" then some false else none
+  if s == "1" then some true
+  else if s == "0" || s == "2" || s == "3" || s == "4" || s == "5" || s == "6" then some false else none
 
 def showEvent : Event → String
   | .begin => "begin" | .step i => s!"s{i}" | .commit => "commit" | .rollback => "rollback"
@@ -76,6 +78,15 @@ def step (_ : Unit) (line : String) : Unit × String :=
     match (splitGroups rest).mapM parseSteps with
     | some gs => ((), s!"ran={nestedRan gs} out={showStep (combine (gs.map combine))}")
     | none => ((), "bad-op")
+  | "txn" :: pre :: rest =>
+    -- the shared handle made by gormx.New: what happened on it before (pre ∈ 0…3) does not matter
+    if pre == "0" || pre == "1" || pre == "2" || pre == "3" then
+      match rest with
+      | b :: c :: r :: steps =>
+        if (b == "0" || b == "1") && (c == "0" || c == "1") && (r == "0" || r == "1") then ((), stepW ("tx" :: b :: c :: r :: steps))
+        else ((), "bad-op")
+      | _ => ((), "bad-op")
+    else ((), "bad-op")
   | ["soak", n] =>
     match n.toNat? with
     | some k => if k ≤ 200000 then ((), stepW ["tx", "1", "1", "1", "ok", "p1", "ok"]) else ((), "bad-op")
